@@ -20,7 +20,9 @@ def key_of(clause, label, prog, tr, l):
 
 
 def run(chk):
-    eg.standard_run(chk, "C06", ["waits"], {"step_start", "step_end"}, key_of=key_of,
+    items = eg.collect(chk, ["waits"], paths_q=4, paths_t=10, walks_q=1, walks_t=5)
+    # a retry that waits in the queue of a saturated step before it runs (its retry number travels with the queue entry)
+    items += eg.collect(chk, ["waits_queue"], paths_q=40, paths_t=300, walks_q=10, walks_t=60, depth=18)
+    eg.standard_run(chk, "C06", None, {"step_start", "step_end"}, key_of=key_of, items=items,
                     extra=lambda prog, tr: {"step": "b"}, keep=keep,
-                    nontrivial=lambda tr: sum(1 for r in tr if r["e"] == "step_start" and r["step"] == "b" and r["retry"] >= 1) >= 2,
-                    collect_kw=dict(paths_q=4, paths_t=10, walks_q=1, walks_t=5))
+                    nontrivial=lambda tr: sum(1 for r in tr if r["e"] == "step_start" and r["step"] == "b" and r["retry"] >= 1) >= 2)
